@@ -21,6 +21,7 @@ SectorOK(o) ==
     /\ \A j \in 1..Len(o.snaps) : SnapOK(o.sizes, o.snaps[j])
     /\ ToSet(o.snaps[Len(o.snaps)].flushed) = 1..Len(o.sizes)      \* every writer returns
     /\ \A k \in 1..Len(o.sizes) : o.offsets[k] = Start(o.sizes, k) /\ o.errors[k] = ""   \* at the offset handed out, without error
+    /\ \A k \in 1..Len(o.sizes) : o.reads[k] = "ok"       \* and reads back, validated against its digest, as uploaded (C01)
 TInit == l = 1
 TNext == l <= Len(Trace) /\ l' = l + 1 /\ Ev.ev = "Sector" /\ SectorOK(Ev)
 TSpec == TInit /\ [][TNext]_l
